@@ -73,6 +73,14 @@ fn exec_op(run: &mut Run, op: &Value) -> Value {
             let h = get_i64(op, "h") as u32;
             let key = get_str(op, "key");
             let (ip, port) = ids::key_addr(fam, key);
+            if get_bool_or(op, "gated", false)
+                && !run
+                    .access_list
+                    .load()
+                    .allows(run.config.access_list.mode, &ids::info_hash(h))
+            {
+                return finish(run, json!({"ev":"announce_rejected","t":[fam,h],"key":key}));
+            }
             let numwant = get_i64(op, "numwant");
             let left = get_i64(op, "left");
             let deadline = get_i64(op, "deadline") as u32;
@@ -112,6 +120,7 @@ fn exec_op(run: &mut Run, op: &Value) -> Value {
                 .collect();
             json!({"ev":"announce","t":[fam,h],"key":key,"event":get_str(op,"event"),
                    "left":left,"numwant":numwant,"deadline":deadline,
+                   "gated":get_bool_or(op, "gated", false),
                    "reply":{"seeders":resp.complete,"leechers":resp.incomplete,
                             "peers4":p4,"peers6":p6,
                             "warning":resp.warning_message.is_some()}})
@@ -175,6 +184,13 @@ fn exec_op(run: &mut Run, op: &Value) -> Value {
         }
         o => panic!("unknown op {}", o),
     };
+    if run.dump {
+        ev["dump"] = dump_json(&run.maps.verif_dump());
+    }
+    ev
+}
+
+fn finish(run: &mut Run, mut ev: Value) -> Value {
     if run.dump {
         ev["dump"] = dump_json(&run.maps.verif_dump());
     }
